@@ -63,7 +63,10 @@ def main(tier):
         "float constraints (time windows, length limits) are judged with a +1e-4 band; capacity and prize are exact on lattice instances",
         "the batched frontier relies on batch independence (C04); a stated number of paths per tree is re-executed solo",
     ]
-    items = units(tier, seed_from_env())
+    # C01 is cheap: the quick tier already explores the "thorough" alphabets (n<=5-6), the thorough tier the "deep" ones
+    alph = "thorough" if tier == "quick" else "deep"
+    items = units(alph, seed_from_env())
+    rep.extra["alphabet"] = alph
     rep.merge_all(pmap(unit, items))
     rep.extra["environments"] = sorted({i[0] for i in items})
     return rep.finish()
